@@ -93,6 +93,8 @@ def jobs(tier, seed):
             add("core_maths", comp, [dataset(seed, "core_maths", comp, n, pl, src, s, X25) for n, pl, src in TRUTHS[("core_maths", comp)]],
                 per_call=3 if comp == 3 else 2)
     add("core_maths", 4, [dataset(seed, "core_maths", 4, n, pl, src, 0.1, X25) for n, pl, src in TRUTHS[("core_maths", 4)][:2]], P=3, sfx="-P3")
+    # more than ten ranks: the per-rank files of the stages carry two-digit rank numbers (the order in which they are joined matters)
+    add("core_maths", 4, [dataset(seed, "core_maths", 4, n, pl, src, 0.1, X25) for n, pl, src in TRUTHS[("core_maths", 4)][:1]], P=12, sfx="-P12")
     # a truth whose unit-parameter probes (a0 = +-1) all have a pole on the data grid, while the truth itself (a0 = 3) is regular
     add("core_maths", 4, [dataset(seed, "core_maths", 4, "pole", "1/(a0 + x)", "1.0/(3.0 + t)", 0.02, XPM)], sfx="-xpm")
     if tier != "quick":
